@@ -1,5 +1,5 @@
 // C04 runner (Node 20, flags: --experimental-vm-modules --expose-internals --no-warnings).
-// stdin : {cases:[{id, alone, files:{path:text}, entry, bundles:[{name, format, code}]}]}
+// stdin : {cases:[{id, alone, files:{path:text}, entry, cjs:[path], readExports, globalName, bundles:[{name, format, code}]}]}
 // stdout: {results:[{id, alone:{trace,err}, native:{trace,err}, inputFree:[..],
 //                    bundles:[{name, trace, err, dangling:[..], parseError}]}]}
 // (i)  GROUND TRUTH: the statement alone, as a module in a fresh context: does the probe fire / does it throw?
@@ -7,6 +7,11 @@
 //      bundles run as modules or under "use strict", so a reference to a removed declaration throws.
 // Probe events: P(id) -> id; traps of the global Proxy GP -> "F:<trap>:<key>"; PU() / PA() -> "F.ann";
 // an exception escaping the entry -> "threw:<ErrorName>".
+// (iii) readExports: synchronously after the entry has been evaluated (before any microtask runs) every export
+//      of the entry point is read: name=typeof:value for primitives, exported functions are called (typeof of /
+//      primitive result or threw:<ErrorName>); the same observation on the native module graph is the reference.
+//      CommonJS files of the native graph are vm.SyntheticModules (default + the statically assigned names);
+//      the native context has a global require() that returns the namespace of an already evaluated module.
 'use strict';
 const vm = require('vm');
 let acorn = null, walk = null;
@@ -83,13 +88,66 @@ function resolveSpec(files, spec, from) {
   return cand;
 }
 
-async function runGraph(files, entry) {
+function prim(x) {
+  if (x === null) return 'null';
+  const t = typeof x;
+  if (t === 'object' || t === 'function') return t;
+  if (t === 'symbol') return x.toString();
+  return t + ':' + String(x);
+}
+
+// read every export: no event of the observation itself stays in the trace
+function observe(ns, trace) {
+  const out = [];
+  const tlen = trace.length;
+  try {
+    const keys = Object.keys(ns).filter((k) => k !== '__esModule').sort();
+    for (const k of keys) {
+      let d;
+      try {
+        const v = ns[k];
+        if (typeof v === 'function') {
+          try { d = 'function:ret:' + prim(v()); } catch (e) { d = 'function:threw:' + errName(e); }
+        } else d = prim(v);
+      } catch (e) { d = 'threw:' + errName(e); }
+      out.push(k + '=' + d);
+    }
+  } catch (e) { out.push('threw:' + errName(e)); }
+  trace.length = tlen;
+  return out;
+}
+
+async function runGraph(files, entry, opts) {
   const trace = [];
   let err = '';
+  let exportsSeen = null;
   const ctx = makeContext(trace);
   const cache = new Map();
+  const cjsExports = new Map();
+  const cjs = new Set((opts && opts.cjs) || []);
+  const nativeRequire = (from) => (spec) => {
+    const path = resolveSpec(files, String(spec), from);
+    const t = getMod(path);
+    if (t.status !== 'evaluated') throw new Error('native require of a module that is not evaluated yet: ' + path);
+    return cjs.has(path) ? cjsExports.get(path) : t.namespace;
+  };
+  if (opts && opts.readExports) ctx.require = nativeRequire(entry);
   const getMod = (path) => {
     if (cache.has(path)) return cache.get(path);
+    if (cjs.has(path)) {
+      const text = files[path];
+      const names = [...new Set([...text.matchAll(/\bexports\.(\w+)\s*=/g)].map((x) => x[1]))].filter((n) => n !== 'default');
+      const sm = new vm.SyntheticModule(['default', ...names], function () {
+        const fn = vm.runInContext('(function (module, exports, require) {' + text + '\n})', ctx, { filename: path });
+        const mod = { exports: {} };
+        fn(mod, mod.exports, nativeRequire(path));
+        cjsExports.set(path, mod.exports);
+        this.setExport('default', mod.exports);
+        for (const n of names) this.setExport(n, mod.exports[n]);
+      }, { context: ctx, identifier: path });
+      cache.set(path, sm);
+      return sm;
+    }
     const m = new vm.SourceTextModule(files[path], {
       context: ctx, identifier: path,
       importModuleDynamically: async (spec, ref) => {
@@ -107,19 +165,24 @@ async function runGraph(files, entry) {
   try {
     const m = getMod(entry);
     await m.link(linker);
-    await m.evaluate({ timeout: 30000 });
+    // a module graph without top-level await is evaluated synchronously inside evaluate()
+    const done = m.evaluate({ timeout: 30000 });
+    if (opts && opts.readExports && m.status === 'evaluated') exportsSeen = observe(m.namespace, trace);
+    await done;
   } catch (e) {
     if (isTimeout(e)) return { trace, err: 'timeout', timeout: true };
     trace.push('threw:' + errName(e));
     err = String(e && e.message || e).slice(0, 200);
   }
   await settle();
-  return { trace, err };
+  return { trace, err, exports: exportsSeen };
 }
 
-async function runBundle(b) {
+async function runBundle(b, opts) {
   const trace = [];
   let err = '';
+  let exportsSeen = null;
+  const read = !!(opts && opts.readExports);
   const ctx = makeContext(trace);
   try {
     if (b.format === 'esm') {
@@ -128,13 +191,20 @@ async function runBundle(b) {
         importModuleDynamically: async (spec) => { throw new Error('bundle imports ' + spec + ' at run time'); },
       });
       await m.link((spec) => { throw new Error('bundle has an unresolved import of ' + spec); });
-      await m.evaluate({ timeout: 30000 });
+      const done = m.evaluate({ timeout: 30000 });
+      if (read && m.status === 'evaluated') exportsSeen = observe(m.namespace, trace);
+      await done;
     } else if (b.format === 'cjs') {
       const fn = vm.runInContext('(function (module, exports, require) { "use strict";\n' + b.code + '\n})', ctx, { filename: b.name });
       const mod = { exports: {} };
       fn(mod, mod.exports, (spec) => { throw new Error('bundle requires ' + spec + ' at run time'); });
+      if (read) exportsSeen = observe(mod.exports, trace);
     } else {
       vm.runInContext('"use strict";\n' + b.code, ctx, { filename: b.name, timeout: 30000 });
+      if (read && opts.globalName) {
+        const g = vm.runInContext('typeof ' + opts.globalName + ' === "undefined" ? null : ' + opts.globalName, ctx);
+        if (g !== null && g !== undefined) exportsSeen = observe(g, trace);
+      }
     }
   } catch (e) {
     if (isTimeout(e)) return { name: b.name, trace, err: 'timeout', timeout: true };
@@ -142,7 +212,7 @@ async function runBundle(b) {
     err = String(e && e.message || e).slice(0, 200);
   }
   await settle();
-  return { name: b.name, trace, err };
+  return { name: b.name, trace, err, exports: exportsSeen };
 }
 
 // ---- static scan: identifiers that are referenced but declared nowhere in the program
@@ -192,7 +262,7 @@ async function runCase(c) {
   const out = { id: c.id };
   if (typeof c.alone === 'string') out.alone = await runGraph({ 'alone.js': c.alone }, 'alone.js');
   if (c.files) {
-    out.native = await runGraph(c.files, c.entry);
+    out.native = await runGraph(c.files, c.entry, c);
     const inputFree = new Set();
     let scanOK = true;
     for (const p of Object.keys(c.files)) {
@@ -203,7 +273,7 @@ async function runCase(c) {
     out.inputFree = [...inputFree].sort();
     out.bundles = [];
     for (const b of c.bundles || []) {
-      const r = await runBundle(b);
+      const r = await runBundle(b, c);
       const f = scanOK ? freeIdentifiers(b.code, b.format) : null;
       if (f && f.parseError) r.parseError = f.parseError;
       r.dangling = f && f.free ? f.free.filter((x) => !inputFree.has(x) && !builtins().has(x)) : [];
